@@ -47,9 +47,13 @@ func initOnce() {
 }
 
 func OnceDo(vm *Thread, once *value.Once, fn value.Value) (err value.Value) {
+	vhook("once.call.try", once)
 	once.Native().Do(func() {
+		vhook("once.body", once)
 		_, err = vm.CallCallable(fn)
+		vhook("once.body.end", once)
 	})
+	vhook("once.call.ok", once)
 
 	return err
 }
